@@ -296,11 +296,55 @@ def run(prog, tier, res):
         res.hit(R3)
     else:
         res.violate(R3, AVAL, "column-wires", "match_column_inputs does not receive the indices and the inputs of pad_column_to_wires(column): %s / %s" % (a0[:120], a1[:120]), wa)
+    # every column starts from fresh scratch state: a local that is written in place (mutable borrow / element store)
+    # inside the column loop must also be (re)created inside it -- unless it is the returned collection.  Scratch that
+    # survives from the previous column makes a column's result depend on which column was processed before it, and
+    # the rotation changes that order at the 31/0 seam.
+    col_loops = []
+    drivers = set()              # the iterators that drive the loops (advanced by next(): not scratch state)
+    for bbn, tn in b.calls():
+        if short(cname(tn)) == "Iterator::next" and tn["args"]:
+            o_ = tn["args"][0]
+            l_ = (o_.get("p") or {}).get("l")
+            while l_ is not None and b.locals[l_].get("name") is None and len(an.terms.defs.whole[l_]) == 1 and an.terms.defs.whole[l_][0][1] != "t" \
+                    and an.terms.defs.whole[l_][0][2].get("k") == "ref":
+                l_ = an.terms.defs.whole[l_][0][2]["p"]["l"]
+            drivers.add(l_)
+            if l_ is not None and "btree_set::IntoIter" in pp_ty(b.locals[l_]["ty"]):
+                for tl_, hd_ in b.back_edges():
+                    lp_ = set(b.natural_loop(tl_, hd_))
+                    if bbn in lp_:
+                        col_loops.append(lp_)
+    if col_loops:
+        lpc = max(col_loops, key=len)
+        returned = set()
+        for bi_, si_, st_ in b.stmts():
+            if st_["k"] == "assign" and st_["p"] == {"l": 0, "pr": []} and st_["rv"].get("k") == "use":
+                returned.add(((st_["rv"]["o"].get("p") or {}).get("l")))
+        carried = []
+        for l_ in range(b.argc + 1, len(b.locals)):
+            if not b.locals[l_].get("name") or l_ in returned or l_ in drivers:
+                continue
+            whole_in = any(d_[0] in lpc for d_ in an.terms.defs.whole[l_])
+            mut_in = any(d_[0] in lpc for d_ in an.terms.defs.partial[l_])
+            for bi_, si_, st_ in b.stmts():
+                if bi_ in lpc and st_["k"] == "assign" and st_["rv"].get("k") == "ref" and st_["rv"].get("m") and st_["rv"]["p"]["l"] == l_:
+                    mut_in = True
+            if mut_in and not whole_in and an.terms.defs.whole[l_]:
+                carried.append(b.locals[l_]["name"])
+        if carried:
+            res.violate(R3, AVAL, "carried-scratch:%s" % ",".join(sorted(set(carried))), "the column loop of avalanches() writes in place into %s, which is created before the loop and not reset per column: "
+                        "entries left over from the previous column leak into the next one, so the result depends on the order in which the columns are processed" % sorted(set(carried)), wa)
+        else:
+            res.hit(R3)
     pd = calls.get("alpha_g_physics::deconvolution::pads::pad_deconvolution", [])
     pd_ok = False
     for bbp, tp in pd:
         nm = sy.name(an.terms.operand(tp["args"][0]))
         if ("arg1.1[%s][" % colv) in nm:
+            pd_ok = True
+        # the rows of the column walked in step with the scratch rows: `scratch.iter_mut().zip(&pad_signals[column])`
+        if nm.startswith("((Iterator::next(mut(Iterator::zip(<impl [T]>::iter_mut(") and nm.endswith(",arg1.1[%s]))) as Some).0.1 as Some).0" % colv):
             pd_ok = True
     if not pd_ok:
         # the per-row deconvolution may sit in a closure (`array::from_fn(|row| ..)`): name its argument with the
@@ -738,6 +782,11 @@ def run(prog, tier, res):
 
 
 PADHITS = M + "pad_hits_at_t"
+
+
+def pp_ty(ty):
+    from .. import pp
+    return pp.ty(ty)
 
 
 def scan_model(prog):
